@@ -86,6 +86,8 @@ pub fn division(from: &[u8], by: &[u8]) -> [u8; 255] {
 
     from_mut[start..(256 - by.len())].copy_from_slice(&from[..((256 - by.len()) - start)]);
 
+    #[cfg(fast_qr_verif)]
+    crate::verif::point("div.entry");
     for i in start..start + from.len() {
         if from_mut[i] == 0 {
             continue;
@@ -98,6 +100,8 @@ pub fn division(from: &[u8], by: &[u8]) -> [u8; 255] {
         }
     }
 
+    #[cfg(fast_qr_verif)]
+    crate::verif::point("div.exit");
     from_mut
 }
 
@@ -121,6 +125,8 @@ pub fn structure(data: &[u8], quality: ECL, version: Version) -> [u8; 5430] {
     let start_error_idx = hardcode::data_codewords(version, quality);
 
     for i in 0..g1_count {
+    #[cfg(fast_qr_verif)]
+    crate::verif::point("st.g1");
         let start_idx = i * g1_size;
         let division = polynomials::division(&data[start_idx..start_idx + g1_size], error);
 
@@ -131,6 +137,8 @@ pub fn structure(data: &[u8], quality: ECL, version: Version) -> [u8; 5430] {
     }
 
     for i in 0..g2_count {
+    #[cfg(fast_qr_verif)]
+    crate::verif::point("st.g2");
         let start_idx = g1_size * g1_count + i * g2_size;
         let division = polynomials::division(&data[start_idx..start_idx + g2_size], error);
 
@@ -140,6 +148,8 @@ pub fn structure(data: &[u8], quality: ECL, version: Version) -> [u8; 5430] {
         }
     }
 
+    #[cfg(fast_qr_verif)]
+    crate::verif::point("st.interleave");
     let mut push_idx = 0;
     let max = core::cmp::max(g1_size, g2_size);
 
